@@ -41,6 +41,7 @@ def run(ctx):
     wire_agg(ctx, facts)
     pipeline(ctx, facts)
     collective_inner(ctx, facts)
+    collective_stages(ctx, facts)
     sat_merge(ctx, facts)
     partial_nonzero(ctx, facts)
     chunk_cover(ctx, facts)
@@ -314,6 +315,55 @@ def collective_inner(ctx, facts):
         ctx.ob("COLLECTIVE", f"breakdown-reveal:ok-return-skips-shuffle@{guard_sig(b, dom, bb)}", False,
                f"breakdown_reveal_aggregation can return Ok without taking part in the sharded shuffle of the attribution outputs: a shard on which no match key occurred exactly twice (here under `{guard_sig(b, dom, bb)}`) returns at once and the shards that do have attributed pairs wait for its messages",
                site_of(b, bb))
+
+
+COLLECTIVE_STAGES = [
+    # (function, [(tag, callee regex, "any" = one of the matching calls on every success path | "each" = every matching call site)])
+    ("protocol::hybrid::oprf::compute_prf_and_reshard", [("reshard", r"reshard_try_stream$", "any")]),
+    ("protocol::ipa_prf::shuffle::malicious::malicious_sharded_shuffle", [("shuffle-for-shard", r"::h[123]_shuffle_for_shard$", "any")]),
+    ("protocol::ipa_prf::shuffle::sharded::shuffle", [("shuffle-for-shard", r"::h[123]_shuffle_for_shard$", "any")]),
+    ("protocol::ipa_prf::shuffle::sharded::h1_shuffle_for_shard", [("step", r"::(mask_and_shuffle|send_all|recv_all|send_word|recv_word)$", "each")]),
+    ("protocol::ipa_prf::shuffle::sharded::h2_shuffle_for_shard", [("step", r"::(mask_and_shuffle|send_all|recv_all|send_word|recv_word)$", "each")]),
+    ("protocol::ipa_prf::shuffle::sharded::h3_shuffle_for_shard", [("step", r"::(mask_and_shuffle|send_all|recv_all|send_word|recv_word)$", "each")]),
+]
+
+
+def collective_stages(ctx, facts, only=None):
+    """The rule once more for the stages underneath: the other shards count on every shard's messages in the resharding
+    after the PRF and in every step of the sharded shuffle, whatever that shard holds itself (possibly nothing)."""
+    ctx.rule("COLLECTIVE (stages): in compute_prf_and_reshard, malicious_sharded_shuffle / shuffle and h1/h2/h3_shuffle_for_shard no return other than an error return (`?` residual or Err(..)) is reachable from the entry without passing the cross-shard call (reshard_try_stream; the role's shuffle_for_shard; each mask_and_shuffle / send_all / recv_all / send_word / recv_word step)")
+    for root, groups in COLLECTIVE_STAGES:
+        if only and not re.search(only, root):
+            continue
+        b = malsec.async_main_body(facts, root)
+        short = root.split("::")[-1]
+        if b is None:
+            ctx.missing("COLLECTIVE", short)
+            continue
+        ctx.count(bodies=1)
+        dom = b.dominators()
+        rets = [bb for bb in b.live_blocks() if b.term(bb)["k"] == "ret"]
+        errs = {bb for bb, t in b.calls() if re.search(r"FromResidual<.*>>::from_residual$|FromResidual::from_residual$", F.callee(t)[0] or "")} | set(malsec.err_aggs(b, "Err"))
+        for tag, rx, mode in groups:
+            cs = [bb for bb, t in flow.find_calls(b, re.compile(rx))]
+            if not cs:
+                ctx.missing("COLLECTIVE", f"{short}: call matching {rx}")
+                continue
+            ctx.count(calls=len(cs))
+            sets = [frozenset(cs)] if mode == "any" else [frozenset([c]) for c in cs]
+            for k, av in enumerate(sets):
+                reach = b.reachable(0, avoid=frozenset(av | errs))
+                esc = [r for r in rets if r in reach]
+                name = f"{short}:{tag}" + (f"#{k}" if mode == "each" else "")
+                if not esc:
+                    ctx.ob("COLLECTIVE", f"{name}:on-every-success-path", True, "every shard takes part", site_of(b, sorted(av)[0]))
+                    continue
+                # name the escape by the closest guard of the first block from which the call can no longer be reached
+                can = {x for x in b.live_blocks() if any(c in b.reachable(x) for c in av)}
+                lost = sorted(x for x in reach if x not in can and any(p_ in can for p_ in b.preds(x)))
+                sig = guard_sig(b, dom, lost[0]) if lost else "unconditional"
+                ctx.ob("COLLECTIVE", f"{name}:success-return-skips@{sig}", False,
+                       f"{short} can return successfully without taking part in its cross-shard step ({tag}): a shard on this path (under `{sig}`) leaves while the other shards wait for its messages", site_of(b, lost[0]) if lost else site_of(b))
 
 
 def guard_sig(b, dom, bb):
